@@ -34,6 +34,8 @@ import FianoModel.Nvram.FuelNested
 import FianoModel.Nvram.FuelLemmas
 import FianoModel.Nvram.Tie
 import FianoModel.Nvram.TieLogic
+import FianoModel.Nvram.CodeTie   -- T1 code-as-code tie (wp-t1x): audited as a tie module of this check
+import FianoModel.Uefi.CodeTie   -- T1 code-as-code tie (wp-t1x): audited as a tie module of this check
 
 namespace Fiano.Nvram
 open Spec
